@@ -106,6 +106,8 @@ def cases(sh, tier):
                 yield {"a": s, "op": "take", "axis": p, "p": p, "indexing": "position", "ix": [n, -1, 0, n + 1], "mode": mode}
             for m in range(2 ** n):
                 yield {"a": s, "op": "compress", "axis": s["dims"][p] if m % 2 else p, "p": p, "mask": [(m >> i) & 1 == 1 for i in range(n)]}
+                if m % 3 == 0:     # "take_axis and compress select whole slices by label, position or MASK": the same mask given to take_axis
+                    yield {"a": s, "op": "compress", "axis": s["dims"][p], "p": p, "mask": [(m >> i) & 1 == 1 for i in range(n)], "via": "take_axis"}
         if s["vk"] in ("f", "f4"):
             slice_size = int(np.prod(D.shape_of(s))) // n
             mvs = [None] + (list(range(0, slice_size + 1)) if nd >= 2 else [])
@@ -196,10 +198,14 @@ def check(case):
         p = case["p"]
         mask = case["mask"]
         positions = [i for i, m in enumerate(mask) if m]
-        got = call(a.compress_axis, np.array(mask, dtype=bool), axis=case["axis"])
+        if case.get("via") == "take_axis":
+            got = call(a.take_axis, np.array(mask, dtype=bool), axis=case["axis"])
+            what = "take_axis(mask {}, axis={!r})".format(mask, case["axis"])
+        else:
+            got = call(a.compress_axis, np.array(mask, dtype=bool), axis=case["axis"])
+            what = "compress_axis({}, axis={!r})".format(mask, case["axis"])
         exp = _take_slices(ra, p, positions)
         nontriv = not all(mask)
-        what = "compress_axis({}, axis={!r})".format(mask, case["axis"])
     elif op == "dropna":
         p = case["p"]
         n = ra.shape[p]
